@@ -268,6 +268,66 @@ fn state_json(st: &State, t: u32, script: &[usize]) -> Value {
 /// The multi-party step is delegated: both functionaries file a two-step sub-layout, and what is
 /// compared are the summaries (first inner step's materials, last inner step's products). A dissent
 /// that shows in a summary must make verification fail.
+/// Every permutation at one site of the default schedule (`site` = "A": the order in which the
+/// links of a step are checked; "C": the reference-link choice).
+fn run_orders_at(dir: &Path, lay: &Metablock, acc: &mut Acc, site: &str) -> Vec<(Vec<usize>, Verdict)> {
+    let owners = world::owner_map(&[keys::get("ed6")]);
+    let (v0, d0) = world::verify_with(lay, owners.clone(), dir, world::default_driver());
+    acc.evaluations += 1;
+    acc.traces += 1;
+    let mut out = vec![(vec![], v0)];
+    if let Some(idx) = d0.trace.iter().position(|p| p.site == site) {
+        let n = d0.trace[idx].n;
+        for perm in 1..fact(n).min(24) {
+            let mut script = vec![0; idx + 1];
+            script[idx] = perm;
+            let drv = Driver { clock: Some(world::now()), permute: true, script: script.clone(), ..Driver::default() };
+            let (v, d) = world::verify_with(lay, owners.clone(), dir, drv);
+            if d.diverged {
+                util::machinery_error("C07: divergence while replaying a prefix");
+            }
+            acc.evaluations += 1;
+            acc.traces += 1;
+            out.push((script, v));
+        }
+    }
+    out
+}
+
+/// One functionary key that the layout lists under two ids (one RSA modulus with both PSS
+/// digests), with a validly signed link under each id - one of them dissenting - next to a second
+/// functionary: the dissent is among the valid authorised links, whatever order they are met in.
+fn two_ids_leg(acc: &mut Acc) {
+    let (r1, r2, b, owner) = (keys::get("rsa256a"), keys::get("rsa512a"), keys::get("ed2"), keys::get("ed6"));
+    let dir = util::fresh_dir("c07g");
+    for v in [1usize, 2, 4, 11, 12, 14, 21, 24] {
+        for (dissenter, agreeing) in [(r2, r1), (r1, r2)] {
+            for thr in [2u32, 3] {
+                for e in std::fs::read_dir(&dir).unwrap().flatten() {
+                    let _ = std::fs::remove_file(e.path());
+                }
+                world::write(&dir, &world::link_file("s", agreeing), &world::block_text(&world::sign_link(link_for(0), &[agreeing])));
+                world::write(&dir, &world::link_file("s", dissenter), &world::block_text(&world::sign_link(link_for(v), &[dissenter])));
+                world::write(&dir, &world::link_file("s", b), &world::block_text(&world::sign_link(link_for(0), &[b])));
+                let lay = world::sign_layout(world::layout(vec![world::step("s", thr, &[r1, r2, b])], vec![], &[r1, r2, b], world::far_future()), &[owner]);
+                acc.states += 1;
+                acc.nontrivial += 1;
+                for site in ["A", "C"] {
+                    for (script, verdict) in run_orders_at(&dir, &lay, acc, site) {
+                        acc.outcome(&format!("two-ids|{}", verdict.tag()));
+                        let w = || json!({"kind": "one-key-two-ids", "dissenting_link_under": dissenter.kind, "variation": VARIATIONS[v], "threshold": thr, "site": site, "schedule": script});
+                        match &verdict {
+                            Verdict::Ok(_) => acc.violation(&format!("accepted-dissent:one-key-under-two-ids:{}", VARIATIONS[v].split(':').next_back().unwrap_or("")), &format!("a step was accepted although one of its valid authorised links (under the second id of a functionary's key) dissents ({})", VARIATIONS[v]), w),
+                            Verdict::Panic(l, m) => acc.violation(&format!("panic:{l}"), m, w),
+                            Verdict::Err(_) => {}
+                        }
+                    }
+                }
+            }
+        }
+    }
+}
+
 fn delegated_leg(acc: &mut Acc) {
     let (a, b, inner_f, owner) = (keys::get("ed1"), keys::get("ed2"), keys::get("ed5"), keys::get("ed6"));
     let dir = util::fresh_dir("c07d");
@@ -456,8 +516,9 @@ pub fn run(tier: Tier) -> i32 {
         acc.merge(Acc::merge_all(accs.into_iter().map(|(a, _)| a).collect()));
     }
     delegated_leg(&mut acc);
+    two_ids_leg(&mut acc);
     c.acc = acc;
-    c.rule = "state = vector of per-link variations (43 kinds, the last 14 for k = 2 only: none; the path of one entry re-spelled (blank / newline / NUL / slash appended, blank or ./ prepended, upper case) in a link that was read from text before it was signed; in materials or products: a second algorithm added with one of two values, other path, last / first digest byte, digest truncated by a byte / extended by a byte / of no bytes, other algorithm, second algorithm added, extra entry sorting last / first, missing last / first entry, empty map) for k authorised valid links, optionally plus a dissenting link by a key outside the key table or a tampered one; transition = change one link's variation; every state runs in_toto_verify for thresholds 2..min(k,3), with the step alone, next to a single-party step (before it, after it, after a threshold-0 step) and next to a second multi-party step whose links agree (before it, after it) under every permutation of the reference-link choice (site C); plus a delegated multi-party step (two functionaries, two-step sub-layouts) with a dissent at each of 6 places, 4 of them visible in the summaries; non-trivial = vectors that are not all equal".into();
+    c.rule = "state = vector of per-link variations (43 kinds, the last 14 for k = 2 only: none; the path of one entry re-spelled (blank / newline / NUL / slash appended, blank or ./ prepended, upper case) in a link that was read from text before it was signed; in materials or products: a second algorithm added with one of two values, other path, last / first digest byte, digest truncated by a byte / extended by a byte / of no bytes, other algorithm, second algorithm added, extra entry sorting last / first, missing last / first entry, empty map) for k authorised valid links, optionally plus a dissenting link by a key outside the key table or a tampered one; transition = change one link's variation; every state runs in_toto_verify for thresholds 2..min(k,3), with the step alone, next to a single-party step (before it, after it, after a threshold-0 step) and next to a second multi-party step whose links agree (before it, after it) under every permutation of the reference-link choice (site C); plus one functionary key under two ids with a link under each, one dissenting (8 variations x which id dissents x thresholds 2, 3 x every order at sites A and C); plus a delegated multi-party step (two functionaries, two-step sub-layouts) with a dissent at each of 6 places, 4 of them visible in the summaries; non-trivial = vectors that are not all equal".into();
     c.bound_completed = format!("complete variation vectors for {} (BFS reaches every vector)", bounds.join(", "));
     c.assume("all k links are validly signed by authorised keys of the key table; no rules (isolates C03)");
     c.finish()
@@ -467,6 +528,11 @@ pub fn replay(case: &Value) -> Value {
     if case["kind"] == "delegated" {
         let mut acc = Acc::new();
         delegated_leg(&mut acc);
+        return json!({"violation": acc.violations.keys().next()});
+    }
+    if case["kind"] == "one-key-two-ids" {
+        let mut acc = Acc::new();
+        two_ids_leg(&mut acc);
         return json!({"violation": acc.violations.keys().next()});
     }
     let f = fns();
